@@ -35,6 +35,10 @@ import (
 	upgradetypes "github.com/cosmos/cosmos-sdk/x/upgrade/types"
 	govv1beta1 "github.com/cosmos/cosmos-sdk/x/gov/types/v1beta1"
 	sdkvesting "github.com/cosmos/cosmos-sdk/x/auth/vesting/types"
+	"github.com/cosmos/cosmos-sdk/x/authz"
+	"github.com/cosmos/cosmos-sdk/x/feegrant"
+	transfertypes "github.com/cosmos/ibc-go/v7/modules/apps/transfer/types"
+	clienttypes "github.com/cosmos/ibc-go/v7/modules/core/02-client/types"
 	stakingtypes "github.com/cosmos/cosmos-sdk/x/staking/types"
 	"github.com/ethereum/go-ethereum/common"
 	ethcrypto "github.com/ethereum/go-ethereum/crypto"
@@ -228,6 +232,96 @@ func chainTx(n *Node, contracts *[]common.Address, t M) ([]byte, error) {
 		}
 		bz, _, err := n.EthTxFor(from, &distrPC, big.NewInt(0), 3_000_000, data)
 		return bz, err
+	case "convert_erc20":
+		// back from the ERC20 representation of a liquid denom to the coin
+		pid := n.App.Erc20Keeper.GetTokenPairID(n.Ctx(), fmt.Sprintf("aLIQUID%d", num(t, "id", 0)))
+		pair, ok := n.App.Erc20Keeper.GetTokenPair(n.Ctx(), pid)
+		if !ok {
+			return nil, fmt.Errorf("no pair")
+		}
+		return cosmos(3000000, erc20types.NewMsgConvertERC20(coin(str(t, "amt")).Amount, w.Acct(str(t, "to")).Addr, pair.GetERC20Contract(), ethAddr(from)))
+	case "authz_grant":
+		exp := n.Time.Add(time.Duration(num(t, "secs", 1000)) * time.Second)
+		var a authz.Authorization
+		switch str(t, "msg") {
+		case "send":
+			a = banktypes.NewSendAuthorization(sdk.NewCoins(coin(str(t, "amt"))), nil)
+		case "delegate":
+			a = authz.NewGenericAuthorization(sdk.MsgTypeURL(&stakingtypes.MsgDelegate{}))
+		default:
+			a = authz.NewGenericAuthorization(sdk.MsgTypeURL(&ucdaotypes.MsgFund{}))
+		}
+		msg, err := authz.NewMsgGrant(from.Addr, w.Acct(str(t, "to")).Addr, a, &exp)
+		if err != nil {
+			return nil, err
+		}
+		return cosmos(300000, msg)
+	case "authz_revoke":
+		url := map[string]string{"send": sdk.MsgTypeURL(&banktypes.MsgSend{}), "delegate": sdk.MsgTypeURL(&stakingtypes.MsgDelegate{})}[str(t, "msg")]
+		if url == "" {
+			url = sdk.MsgTypeURL(&ucdaotypes.MsgFund{})
+		}
+		m := authz.NewMsgRevoke(from.Addr, w.Acct(str(t, "to")).Addr, url)
+		return cosmos(300000, &m)
+	case "authz_exec":
+		granter := w.Acct(str(t, "granter"))
+		var inner sdk.Msg
+		switch str(t, "msg") {
+		case "send":
+			inner = banktypes.NewMsgSend(granter.Addr, w.Acct(str(t, "to")).Addr, sdk.NewCoins(coin(str(t, "amt"))))
+		case "delegate":
+			inner = stakingtypes.NewMsgDelegate(granter.Addr, val(), coin(str(t, "amt")))
+		default:
+			inner = ucdaotypes.NewMsgFund(sdk.NewCoins(coin(str(t, "amt"))), granter.Addr)
+		}
+		m := authz.NewMsgExec(from.Addr, []sdk.Msg{inner})
+		return cosmos(500000, &m)
+	case "feegrant":
+		lim := sdk.NewCoins(coin(str(t, "amt")))
+		msg, err := feegrant.NewMsgGrantAllowance(&feegrant.BasicAllowance{SpendLimit: lim}, from.Addr, w.Acct(str(t, "to")).Addr)
+		if err != nil {
+			return nil, err
+		}
+		return cosmos(300000, msg)
+	case "send_feegranted":
+		// the fee of this transfer is paid from the allowance of `granter`
+		ctx := n.Ctx()
+		acc := n.App.AccountKeeper.GetAccount(ctx, from.Addr)
+		if acc == nil {
+			return nil, fmt.Errorf("no account")
+		}
+		fee := sdk.NewCoins(sdk.NewCoin(utils.BaseDenom, sdkmath.NewIntFromBigInt(new(big.Int).Mul(gasPrice, big.NewInt(200000)))))
+		_, bz, err := BuildCosmosTx(from.Priv, CosmosTxOpts{Gas: 200000, Fee: fee, ChainID: ChainID, AccNum: acc.GetAccountNumber(),
+			Seq: acc.GetSequence(), Granter: w.Acct(str(t, "granter")).Addr},
+			banktypes.NewMsgSend(from.Addr, w.Acct(str(t, "to")).Addr, sdk.NewCoins(coin(str(t, "amt")))))
+		return bz, err
+	case "cancel_unbond":
+		// re-bond (part of) the oldest unbonding entry of this delegation
+		ubd, found := n.App.StakingKeeper.GetUnbondingDelegation(n.Ctx(), from.Addr, val())
+		if !found || len(ubd.Entries) == 0 {
+			return nil, fmt.Errorf("no unbonding entry")
+		}
+		amt := coin(str(t, "amt"))
+		if str(t, "amt") == "all" || amt.Amount.GT(ubd.Entries[0].Balance) {
+			amt = sdk.NewCoin(utils.BaseDenom, ubd.Entries[0].Balance)
+		}
+		return cosmos(500000, stakingtypes.NewMsgCancelUnbondingDelegation(from.Addr, val(), ubd.Entries[0].CreationHeight, amt))
+	case "gov_deposit":
+		return cosmos(300000, govv1beta1.NewMsgDeposit(from.Addr, uint64(num(t, "id", 1)), sdk.NewCoins(coin(str(t, "amt")))))
+	case "ibc_transfer":
+		// ICS-20 transfer over the loopback channel of the scenario (no relayer: the packet stays pending)
+		msg := transfertypes.NewMsgTransfer("transfer", "channel-0", coin(str(t, "amt")), from.Addr.String(), "haqq1receiveronotherside",
+			clienttypes.NewHeight(1, 1_000_000), 0, "")
+		return cosmos(500000, msg)
+	case "pc_ibc_transfer":
+		bz, err := ics20ABI.Pack("transfer", "transfer", "channel-0", "aISLM", coin(str(t, "amt")).Amount.BigInt(), ethAddr(from), "haqq1receiveronotherside",
+			icsHeight{RevisionNumber: 1, RevisionHeight: 1_000_000}, uint64(0), "")
+		if err != nil {
+			return nil, err
+		}
+		pc := ics20PC
+		tx, _, err := n.EthTxFor(from, &pc, big.NewInt(0), 3000000, bz)
+		return tx, err
 	case "convert_coin":
 		c := sdk.NewCoin(fmt.Sprintf("aLIQUID%d", num(t, "id", 0)), coin(str(t, "amt")).Amount)
 		return cosmos(3000000, erc20types.NewMsgConvertCoin(c, ethAddr(w.Acct(str(t, "to"))), from.Addr))
